@@ -9,10 +9,8 @@ from rules.accounting import deep_root, operand_deep_root, mutation_kinds, parti
 
 
 def _reach_after(body, b):
-    out = set()
-    for s in body.nsucc[b]:
-        out |= body.reachable_from(s)
-    return out
+    """blocks that can execute after block b (infeasible edges of flag / same-value variant tests are not followed)"""
+    return body.reachable_from_flags(b)
 
 
 # --------------------------------------------------------------------- R-PROBE-STOP
@@ -106,6 +104,32 @@ def r_probe_stop(F, V):
 SLOT = "raw::InsertSlot"
 
 
+def _slot_of_erased_bucket(body, bi, st):
+    """InsertSlot { index, .. } built at (block bi, stmt st). True: an erase of the same bucket dominates the construction and every
+    control byte the slot carries is loaded after it; False: the body erases the bucket but a carried control byte is loaded
+    before the erase; None: the body does not erase at all (not this pattern)."""
+    from cond import expr_key
+    erases = [(j, t) for j, t in body.calls() if (callee_path(t) or "") in ("raw::RawTableInner::erase", "raw::RawTable::erase_no_drop", "raw::RawTable::erase")]
+    if not erases:
+        return None
+    rv = st["rv"]
+    dom = [j for j, t in erases if t.get("target") is not None and (body.dominates(t["target"], bi) or t["target"] == bi)]
+    carried = []
+    for fname, op in zip(rv.get("fields") or [], rv["ops"]):
+        if fname == "index":
+            continue
+        S = sources(body, op)
+        for c, lst in S.calls.items():
+            if c.endswith("RawTableInner::ctrl"):
+                carried.extend(bb for bb, _ in lst)
+    if not dom:
+        return False if carried else None
+    for cblk in carried:
+        if not any(body.dominates(body.term(j)["target"], cblk) or body.term(j)["target"] == cblk for j in dom):
+            return False
+    return True
+
+
 def r_slot_provenance(F, V):
     R = Result("R-SLOT-PROVENANCE", F.cfg)
     allowed = ("raw::RawTableInner::fix_insert_slot", "raw::RawTable::remove")
@@ -115,8 +139,14 @@ def r_slot_provenance(F, V):
             if s["k"] == "assign" and s["rv"]["k"] == "aggregate" and s["rv"].get("adt") == SLOT:
                 n += 1
                 key = "%s|InsertSlot{}" % p
-                if p in allowed:
+                erased_here = _slot_of_erased_bucket(body, i, s)
+                if p in allowed and erased_here is not False:
                     R.inst(key, "InsertSlot constructed in its designated constructor", "ok", False, where(body, stmt=s))
+                elif erased_here is True:
+                    R.inst(key, "InsertSlot names a bucket that was erased just before in the same body (control bytes it carries are read after the erase)", "ok", True, where(body, stmt=s))
+                elif erased_here is False:
+                    R.violation(key, body, "an InsertSlot is built for a bucket that this body erases, but a control byte it carries is read before the erase: it still holds the removed element's own tag, so re-inserting through the slot accounts growth_left against a FULL byte (the free-slot count drifts)", line=line_of(body, stmt=s))
+                    R.inst(key, "stale control byte in InsertSlot", "violation", True, where(body, stmt=s))
                 else:
                     R.violation(key, body, "an InsertSlot is constructed outside fix_insert_slot / remove: a slot that bypasses the small-table fix-up can name an occupied bucket (an element would be overwritten)", line=line_of(body, stmt=s))
                     R.inst(key, "foreign InsertSlot construction", "violation", True, where(body, stmt=s))
@@ -132,8 +162,23 @@ def r_slot_provenance(F, V):
             for j, t2 in body.calls():
                 if (callee_path(t2) or "").endswith("fix_insert_slot") and len(t2["args"]) >= 2:
                     S = sources(body, t2["args"][1])
-                    if any(bb == i for c, lst in S.calls.items() for bb, _ in lst):
+                    if any(bb == i for c, lst in list(S.calls.items()) + list(S.via.items()) for bb, _ in lst):
                         ok = True
+            if not ok and "::{closure" in p:
+                # the search step sits in a closure handed to an iterator adaptor (`.find_map(|probe_seq| ..)`): its result is the
+                # closure's return value, and the adaptor's result must reach fix_insert_slot in the enclosing function
+                Sr = sources(body, {"k": "copy", "p": {"l": 0}})
+                if any(bb == i for c, lst in list(Sr.calls.items()) + list(Sr.via.items()) for bb, _ in lst):
+                    pb = F.bodies.get(p.rsplit("::{closure", 1)[0])
+                    if pb is not None:
+                        for j, t2 in pb.calls():
+                            if (callee_path(t2) or "").endswith("fix_insert_slot") and len(t2["args"]) >= 2:
+                                S2 = sources(pb, t2["args"][1])
+                                for c, lst in S2.calls.items():
+                                    for bb2, t3 in lst:
+                                        for a in t3["args"]:
+                                            if a["k"] in ("copy", "move") and pb.locals[a["p"]["l"]]["ty"].get("k") == "closure" and pb.locals[a["p"]["l"]]["ty"].get("path") == p:
+                                                ok = True
             if ok:
                 R.inst(key, "the index from find_insert_slot_in_group flows into fix_insert_slot", "ok", True, where(body, bb=i))
             else:
@@ -238,7 +283,22 @@ def r_slot_fresh(F, V):
             if (callee_path(t) or "").endswith("record_item_insert_at"):
                 # the old control byte is whichever argument (or struct operand) is loaded through ctrl(index) here
                 for a in t["args"][1:]:
-                    if sources(b, a).has_call("RawTableInner::ctrl"):
+                    Sa = sources(b, a)
+                    if Sa.has_call("RawTableInner::ctrl"):
+                        ok = True
+                    # ... or it travels inside the InsertSlot: then every constructor of an InsertSlot must have loaded it
+                    carried = [n_ for n_, adt_ in Sa.loads if adt_ == SLOT and n_ != "index"]
+                    if carried:
+                        bad_sites = []
+                        for p2, b2 in F.bodies.items():
+                            for i2, k2, s2 in b2.stmts():
+                                if s2["k"] == "assign" and s2["rv"]["k"] == "aggregate" and s2["rv"].get("adt") == SLOT and carried[0] in (s2["rv"].get("fields") or []):
+                                    op2 = s2["rv"]["ops"][s2["rv"]["fields"].index(carried[0])]
+                                    if not sources(b2, op2).has_call("RawTableInner::ctrl"):
+                                        bad_sites.append((p2, b2, s2))
+                        if bad_sites:
+                            p2, b2, s2 = bad_sites[0]
+                            R.violation("%s|InsertSlot.%s" % (p2, carried[0]), b2, "the control byte an InsertSlot carries to insert_in_slot (field `%s`) is not loaded from ctrl(index) where the slot is built in %s: the insertion is accounted against a made-up tag, so growth_left drifts" % (carried[0], p2), line=line_of(b2, stmt=s2))
                         ok = True
         if ok:
             R.inst("raw::RawTable::insert_in_slot|old_ctrl", "old control byte is loaded from ctrl(slot.index) at insert time (remove-then-reinsert re-accounts growth_left)", "ok", True, where(b))
@@ -345,7 +405,8 @@ def r_reserve_first(F, V):
                 nv += 1
                 key = "%s|RustcVacantEntry" % p
                 res = [j for j, t in body.calls() if (callee_path(t) or "").split("::")[-1] == "reserve" and t.get("target") is not None]
-                if any(body.dominates(body.term(j)["target"], i) or body.term(j)["target"] == i for j in res):
+                if any(body.dominates(body.term(j)["target"], i) or body.term(j)["target"] == i for j in res) or \
+                        (res and i not in body.reachable_from_entry_flags(tuple(res))):
                     R.inst(key, "construction of RustcVacantEntry is dominated by reserve(1)", "ok", True, where(body, stmt=s))
                 else:
                     R.violation(key, body, "a RustcVacantEntry is created without reserve(1) having run: its insert uses insert_no_grow, which trusts that room exists", line=line_of(body, stmt=s))
@@ -516,23 +577,72 @@ def r_rehash_decision(F, V):
     if decided is None:
         R.violation(key, b, "rehash_in_place and resize_inner are not on opposite arms of one comparison")
         return R
-    S = branch_sources(b, decided)
+    from cond import sources_x
+    S = sources_x(F, b, b.term(decided)["discr"])
     problems = []
     if not S.has_load("items"):
         problems.append("the decision does not depend on the number of live items")
     if S.has_load("growth_left"):
         problems.append("the decision depends on growth_left, which tombstones consume: a table full of tombstones would always grow instead of being rehashed in place")
-    add_l = [l for l in range(1, b.arg_count + 1) if b.locals[l].get("name") == "additional"]
-    if not (set(add_l) & S.args):
+    if "additional" not in S.arg_names:
         problems.append("the decision does not depend on the requested additional room")
     if not S.has_call("bucket_mask_to_capacity"):
         problems.append("the decision is not made against bucket_mask_to_capacity(bucket_mask)")
+    # the comparison itself: one side is derived from the table's capacity (half of it), the other side is the number of
+    # elements to hold and must not itself depend on the capacity - `max(new_items, capacity + 1) <= capacity / 2` can never
+    # hold, so tombstones would never be reclaimed in place
+    ncmp = 0
+    for i in b.normal:
+        rv = _cmp_rvalue(b, i)
+        if rv is None:
+            continue
+        Sa, Sb = sources_x(F, b, rv["a"]), sources_x(F, b, rv["b"])
+        capdep = [x.has_call("bucket_mask_to_capacity") or x.has_load("bucket_mask") for x in (Sa, Sb)]
+        if not any(capdep):
+            continue
+        ncmp += 1
+        if all(capdep):
+            problems.append("both sides of the in-place / resize comparison depend on the table's capacity: the number of elements to hold (items + additional) must be compared against half the capacity, nothing else")
+        else:
+            other = Sb if capdep[0] else Sa
+            if not other.has_load("items") or "additional" not in other.arg_names:
+                problems.append("the quantity compared against the capacity is not items + additional")
+    if ncmp == 0:
+        problems.append("no comparison against bucket_mask_to_capacity(bucket_mask) found")
     if problems:
         R.violation(key, b, "; ".join(problems), line=line_of(b, bb=decided))
         R.inst(key, "; ".join(problems), "violation", True, where(b, bb=decided))
     else:
         R.inst(key, "in-place rehash vs resize decided by comparing items + additional against bucket_mask_to_capacity(bucket_mask)", "ok", True, where(b, bb=decided))
     return R
+
+
+def _cmp_rvalue(body, b):
+    """the comparison rvalue that decides the switch of block b (through copies, `!` and likely/unlikely), or None"""
+    t = body.term(b)
+    if t["k"] != "switch" or t["discr"]["k"] not in ("copy", "move"):
+        return None
+    o = t["discr"]
+    for _ in range(12):
+        d = body.single_def(o["p"]["l"]) if o["k"] in ("copy", "move") and not o["p"].get("proj") else None
+        if not d:
+            return None
+        if d[0] == "call":
+            from core import PASS_THROUGH
+            if (callee_path(d[3]) or "") in PASS_THROUGH:
+                o = d[3]["args"][0]
+                continue
+            return None
+        r = d[3]["rv"]
+        if r["k"] == "use":
+            o = r["op"]
+        elif r["k"] == "unop" and r["op"] == "Not":
+            o = r["a"]
+        elif r["k"] == "binop" and r["op"] in ("Gt", "Ge", "Lt", "Le", "Eq", "Ne"):
+            return r
+        else:
+            return None
+    return None
 
 
 # --------------------------------------------------------------------- R-ENTRY-NOEFFECT
